@@ -1589,6 +1589,8 @@ class Engine:
             ii = self.prog.intinfo(ins['t'])
             return self.load(a, ii[0] if ii else None)
         a = force(a)
+        if getattr(a, '_is_iv', False):
+            return self.iv_mode.unop(op, a)
         if self.taint and is_sym(a):
             return self.sec(ins['t'] if self.prog.intinfo(ins['t']) else None)
         if op == '!':
